@@ -220,6 +220,19 @@ class C14(Property):
                     lines.append(line([x, y, t, str(128 | nc), str(snd), rng.choice(HOLD_EXTRAS)]))
             add(rng.randint(0, 3), lines, "random")
         cases += codec_cases(rng, 1000 if tier == "quick" else 30000)
+        # the samples of an object as the DECODED MAP holds them: what a line leaves unspecified (custom index 0, volume 0, no bank) is
+        # taken from the sample point in force, what it specifies is kept — the index 1 included, which has no file-name suffix
+        # (seed C14-r: "has no suffix" used for "unspecified"). Whole small files through the full decoder, model vs implementation,
+        # and the closed form of C15 evaluated on the implementation
+        for sp_idx in (0, 1, 2, 5):
+            for sp_vol in (60, 100):
+                for ex in ("0:0:0:0:", "0:0:1:0:", "0:0:2:0:", "0:0:-1:0:", "1:2:1:30:", "2:0:1:0:f.wav", "0:0:1:0", "3:3:0:70:"):
+                    for obj in (f"64,64,1000,5,2,{ex}", f"100,100,1000,2,8,L|200:100,1,100,2|8,0:0|1:2,{ex}", f"256,192,1000,12,4,2000,{ex}",
+                                f"100,100,1000,2,0,L|200:100,2,100,2|0|8,0:0:1:0|1:0:2:40|0:0,{ex}"):
+                        text = ("osu file format v14\n\n[General]\nSampleSet: Soft\n\n[Difficulty]\nSliderMultiplier:1.4\n\n[TimingPoints]\n"
+                                f"0,500,4,1,{sp_idx},{sp_vol},1,0\n1400,-100,4,3,{(sp_idx + 1) % 4},35,0,0\n\n[HitObjects]\n{obj}\n")
+                        cases.append(Case("dec " + hexs(text.encode()), prop=False, tags=("finalised-samples",)))
+                        cases.append(Case("c15 " + hexs(text.encode()), corr=False, tags=("finalised-samples-closed-form",)))
         return cases
 
     def py_oracle(self, case, impl_out):
